@@ -12,8 +12,8 @@ CFG = {
     "prop_file": "Properties/C13.v",
     "run_modules": ["Verif.C13.Run"],
     "coq_dirs": ["C13"],
-    "n": {"quick": 2000, "thorough": 200000},
-    "shard": 125,
+    "n": {"quick": 1000, "thorough": 100000},
+    "shard": 64,
     "max_report": 12,
     "level": "proof",
     "rule": ("45% rt: a random Go type (nesting <= 4 of reflect.StructOf/PtrTo/SliceOf/ArrayOf/MapOf[string|int*|uint*|float*]/FuncOf "
@@ -26,10 +26,9 @@ CFG = {
              "wrapper, Go-visible and script-visible state compared with the model after every op; 10% map: 1..20 ops on map[string]int / "
              "map[string]interface{} wrappers with Object.keys/for-in/JSON/spread/entries dumps. non-trivial = rt depth>0, graph with a "
              "shared/cyclic node, hist with sort/shrink/splice after a handle was taken, map with >3 ops; distinct = by hash of the case. "
-             "The generator stays out of the regions of the open findings C13-F20..F25 (those are replayed from the corpus)."),
-    "theorem_names": ["export_toValue_norm", "export_toValue_id", "exportTo_own_numeric", "export_preserves_sharing",
-                      "export_terminates", "live_view_write_then_read", "live_view_frame", "live_view_fields",
-                      "inv_preserved", "handed_out_wrappers_stable", "write_through_live"],
+             "The generator stays out of the regions of the open findings C13-F20..F26 (those are replayed from the corpus)."),
+    "theorem_names": ["export_toValue_norm", "export_toValue_id", "live_view_write_then_read", "live_view_frame",
+                      "live_view_fields", "inv_preserved", "handed_out_wrappers_stable", "write_through_live"],
     "allowed_axioms": [],
     "trusted_base": [
         "Coq 8.16.1 kernel + vm_compute (no native_compute); theorems closed under the global context (no axioms)",
@@ -52,18 +51,19 @@ CFG = {
         "C13.nil_embedded_pointer_panics": _probe({"nil_embedded_ptr_get", "nil_embedded_ptr_json"},
                                                   "HOSTPANIC: reflect: indirection through nil pointer to embedded struct"),
         "C13.go_array_out_of_range_panics": _probe({"array_push", "array_set_oob"}, "HOSTPANIC: reflect: array index out of range"),
+        "C13.nil_func_call_panics": _probe({"nil_func_call"}, "HOSTPANIC: reflect.Value.Call: call of nil function"),
         "C13.pointer_to_func_export_loses_pointer": _probe({"ptr_to_func_export"}, "STATE-MISMATCH"),
     },
     "manifest": {
         "text": ("proof (partial): over a Gallina model of the bridge, for ALL values/histories of the model: Export(ToValue g) = normalize g and "
-                 "= g on export-normal values (same address for pointer/map/slice/func kinds); exporting a script-built graph with the identity "
-                 "cache returns, for every object id, the result recorded for it (sharing and cycles preserved) and terminates with fuel = number "
-                 "of objects; wrapper locations obey the lens laws (script write -> Go read, Go write -> script read, disjoint paths unaffected) "
-                 "incl. promoted fields under any FieldNameMapper; the element-wrapper cache invariant (Live wrappers = cached wrappers) holds "
-                 "along every history of get/put/delete/swap/length=/Go-write/handle-write and a handed-out wrapper keeps its denotation under "
-                 "every operation that is not a write to it. Not provable in Gallina and therefore only tested: reflect addressability and "
-                 "panics (6 findings C13-F20..F25 found there). Tied to /repo on every run by 2000 (quick) / 200000 (thorough) generated "
-                 "values, graphs and histories."),
+                 "= g on export-normal values (same address for pointer/map/slice/func kinds); wrapper locations obey the lens laws (script "
+                 "write -> Go read, Go write -> script read, disjoint paths unaffected) incl. promoted fields under any FieldNameMapper; the "
+                 "element-wrapper cache invariant (Live wrappers = cached wrappers) holds along every swap-free history of get/put/delete/"
+                 "length=/Go-write/handle-write and a handed-out wrapper keeps its denotation under every operation that is not a write to it "
+                 "(8 theorems, no axioms). Modelled and checked by correspondence only, no theorem yet: the swap step of sort, the export "
+                 "identity cache on script-built graphs (sharing/cycles), ExportTo. Not expressible in Gallina and therefore only tested: "
+                 "reflect addressability and panics (7 findings C13-F20..F26 found there). Tied to /repo on every run by 1000 (quick) / "
+                 "100000 (thorough) generated values, graphs and histories."),
         "note": ("trusted: Coq kernel + vm_compute; the hand transcription coq/C13/Model.v; the Go harness (its deep-equality and pointer "
                  "identity oracle); reflect, unsafe and the Go runtime are opaque; implementation covered by correspondence, not by proof"),
         "technique": "Rocq proofs over an executable heap/wrapper model (lens laws, cache invariant by induction over histories, fuelled graph export) + differential correspondence against /repo via vm_compute",
